@@ -69,6 +69,29 @@ def _trees_for(g: gen.Gen, spec: describe.StructSpec, prop: str, tier_: str) -> 
     return trees
 
 
+def failed_call_noise(res: Result, cls: type, spec: describe.StructSpec, tree: dict, rng) -> None:  # noqa: ANN001
+    """History noise: a decode and an encode of the same class that fail part-way (truncated input, sink error at a random
+    write call).  Whatever they raise is not this check's business; what matters is that the *next* case is unaffected."""
+    from kio.serial import entity_reader, entity_writer
+    from ..streams import WriteOnlySink
+
+    res.count("failed_call_noise")
+    try:
+        wire = refcodec.encode_bytes(spec, tree)
+        if wire:
+            entity_reader(cls)(io.BytesIO(wire[: rng.randrange(len(wire))]))
+    except Exception:  # noqa: BLE001
+        pass
+    try:
+        inst = describe.tree_to_instance(spec, tree)
+        probe = WriteOnlySink()
+        entity_writer(cls)(probe, inst)
+        n = probe.observed_calls()
+        entity_writer(cls)(WriteOnlySink(fail_at=rng.randrange(max(1, n)), fail_exc=OSError("injected")), inst)
+    except Exception:  # noqa: BLE001
+        pass
+
+
 # ---------------------------------------------------------------------------------------
 # C01
 
@@ -122,7 +145,11 @@ def c01_worker(res: Result, i: int, n: int) -> None:
         spec = describe.spec_from_class(cls)
         rng = common.rng_for("C01", walk.class_path(cls))
         g = gen.Gen(rng, "canonical")
+        prev = None
         for tree in _trees_for(g, spec, "C01", res.tier):
+            if prev is not None and rng.random() < 0.2:
+                failed_call_noise(res, cls, spec, prev, rng)
+            prev = tree
             tail = rng.randbytes(rng.choice((0, 1, 7, 64)))
             enc = c01_case(res, cls, spec, tree, tail)
             if enc is not None and gen.is_nontrivial(spec, tree):
@@ -160,7 +187,11 @@ def c02_worker(res: Result, i: int, n: int) -> None:
         spec = describe.spec_from_class(cls)
         rng = common.rng_for("C02", walk.class_path(cls))
         g = gen.Gen(rng, "canonical")
+        prev = None
         for tree in _trees_for(g, spec, "C02", res.tier):
+            if prev is not None and rng.random() < 0.2:
+                failed_call_noise(res, cls, spec, prev, rng)
+            prev = tree
             _c02_case(res, cls, spec, tree, distinct, roles)
         for fs in spec.fields:
             if fs.kind == "prim":
@@ -321,7 +352,11 @@ def c03_worker(res: Result, i: int, n: int) -> None:
             g.stats["unknown_tags"] += len(t["$unknown"])
             g.stats["unknown_by_depth"]["0"] = g.stats["unknown_by_depth"].get("0", 0) + len(t["$unknown"])
             trees.append(t)
+        prev = None
         for tree in trees:
+            if prev is not None and rng.random() < 0.2:
+                failed_call_noise(res, cls, spec, prev, rng)
+            prev = tree
             tail = rng.randbytes(rng.choice((0, 3)))
             wire = c03_case(res, cls, spec, tree, tail)
             if wire is None:
@@ -428,8 +463,12 @@ def c05_worker(res: Result, i: int, n: int) -> None:
         spec = describe.spec_from_class(cls)
         rng = common.rng_for("C05", walk.class_path(cls))
         g = gen.Gen(rng, "wire", unknown_tags=False, big_prob=0.03)
+        prev = None
         for tree in _trees_for(g, spec, "C05", res.tier):
             _strip_extras(tree)
+            if prev is not None and rng.random() < 0.2:
+                failed_call_noise(res, cls, spec, prev, rng)
+            prev = tree
             res.count("cases")
             wire = refcodec.encode_bytes(spec, tree)  # canonical: no explicit defaults, no unknown tags
             _c05_case(res, cls, spec, wire, tree, canonical=True)
